@@ -14,7 +14,7 @@ ASSUME = ["the input space is continuous: exhaustive over the configuration latt
 HORIZON = {"quick": 400, "thorough": 2400}
 
 STAGES = ["awgn", "laplacian", "phase", "fading-rayleigh", "fading-rician", "fading-lognormal", "nonlinear-direct", "nonlinear-cartesian", "nonlinear-polar", "nonlinear-noisy"]
-CONSTRAINTS = ["total", "average", "papr-inside", "papr-outside", "papr-late", "per-antenna"]
+CONSTRAINTS = ["total", "average", "papr-inside", "papr-outside", "papr-late", "per-antenna", "per-antenna-budget32", "per-antenna-budget64"]
 ARCHS = ["bourtsoulatze", "tung-q", "tung-q2", "kurka", "noma", "wz-small", "wz", "wz-conditional"]
 
 
@@ -166,9 +166,11 @@ def grad_constraint(p, res):
     import kaira.constraints as KC
     con_name, cplx = p["con"], p["cplx"]
     mk = {"total": lambda: KC.TotalPowerConstraint(2.0), "average": lambda: KC.AveragePowerConstraint(0.5), "papr-inside": lambda: KC.PAPRConstraint(6.0),
-          "papr-outside": lambda: KC.PAPRConstraint(1.3), "papr-late": lambda: KC.PAPRConstraint(3.0), "per-antenna": lambda: KC.PerAntennaPowerConstraint(uniform_power=1.5)}[con_name]
+          "papr-outside": lambda: KC.PAPRConstraint(1.3), "papr-late": lambda: KC.PAPRConstraint(3.0), "per-antenna": lambda: KC.PerAntennaPowerConstraint(uniform_power=1.5),
+          "per-antenna-budget32": lambda: KC.PerAntennaPowerConstraint(power_budget=torch.tensor([1.0, 2.5])),                  # budget given in single precision
+          "per-antenna-budget64": lambda: KC.PerAntennaPowerConstraint(power_budget=torch.tensor([1.0, 2.5], dtype=torch.float64))}[con_name]
     con = mk()
-    shapes = [(1, 6), (3, 6)] if con_name != "per-antenna" else [(1, 2, 4), (3, 2, 4)]
+    shapes = [(1, 6), (3, 6)] if not con_name.startswith("per-antenna") else [(1, 2, 4), (3, 2, 4)]
     if con_name == "papr-late":
         # a sparse, peaky item (16 active samples of 256): the clipping loop does not converge early, so its late, more aggressive
         # iterations run; backward() must work and agree with finite differences on the active coordinates
@@ -234,7 +236,7 @@ def grad_constraint(p, res):
     # stays silent under every perturbation of the weight), so autograd must give the finite-difference gradient of the weight - one silent
     # item must not poison the gradient that all items share
     if con_name in ("total", "average", "per-antenna"):
-        shape = (3, 6) if con_name != "per-antenna" else (3, 2, 3)
+        shape = (3, 6) if not con_name.startswith("per-antenna") else (3, 2, 3)
         for silent in (0, 1, 2):
             cfg = f"{'complex128' if cplx else 'float64'},shape={'x'.join(map(str, shape))},silent-item={silent},shared-weight"
             inp = inputs((3, 6), 1)
